@@ -314,3 +314,19 @@ def orient(ctx):
                     res.fail(Finding("R-ORIENT", "R-ORIENT/%s/other-comparator/%s" % (f.path, short), "entry names are compared with %s instead of compare_names" % c.name, f, c.term["span"]))
     res.floor("compare_names call sites", n, ctx.table("floors").get("orient_sites", 0))
     return res
+
+
+def validname_effects_only(ctx):
+    """C10 view of R-VALIDNAME: only the 'a mutation precedes the name refusal' findings
+    (a name that is never validated is never refused, so C10 is not concerned)."""
+    r = validname(ctx)
+    r.rule = "R-VALIDNAME(noeffect)"
+    r.clause = "an invalid-name refusal is never preceded by a state mutation anywhere on the creation call chain"
+    kept = [f for f in r.findings if f.key.endswith("/mutation-before-validation")]
+    dropped = len(r.findings) - len(kept)
+    r.findings = kept
+    r.obligations -= dropped
+    for f in kept:
+        f.rule = r.rule
+        f.key = f.key.replace("R-VALIDNAME/", "R-VALIDNAME(noeffect)/")
+    return r
